@@ -507,7 +507,7 @@ int main(int argc, char** argv) {
         t.disk.files[kPath].data.resize(o);
         t.trail.push_back("tear@" + to_string(o));
         H.attempted = &t.attempted;
-        H.CheckLoad(&t.disk, nullptr, "load after tear@" + to_string(o));
+        { vfs::Disk probe = t.disk; H.CheckLoad(&probe, nullptr, "load after tear@" + to_string(o)); }
         report(t.trail);
         for (auto& c1 : cont) {
           Node t1 = t;
